@@ -569,6 +569,51 @@ def compare_crash(prep, cr, m):
     return bad
 
 
+DAMAGE_KINDS = ["empty", "zeros", "hole", "garbage", "ff", "half", "minus1", "one", "binget", "longbinget", "proto9", "text",
+                "zlibhdr", "zlibcut"]
+
+
+def damage_probes(env):
+    """the safety net "a result that cannot be loaded is recomputed": a final output.pkl / metadata.json with damaged content
+    (beyond the crash model: such a file needs a failing disk) must never make a call raise or return a wrong value"""
+    base = env.fresh("damage_base")
+    r = run_child(child_spec(env.mods, base, S(1, [C(1), C(2)], cb="valid")))
+    jobs = []
+    for kind in DAMAGE_KINDS:
+        for fname in ("output.pkl", "metadata.json"):
+            # (call_and_shelve(...).get() on a damaged item raises by design: a reference is not a cached call)
+            for cb, verb, how in ((None, 0, "call"), ("valid", 3, "call"), (None, 11, "call")):
+                if fname == "metadata.json" and kind not in ("empty", "zeros", "garbage", "half"):
+                    continue
+                acts = [{"a": "damage", "k": 1, "kind": kind, "file": fname}, {"a": how, "k": 1}, {"a": how, "k": 2}, C(1)]
+                jobs.append((kind, fname, S(1, acts, cb=cb, verbose=verb)))
+
+    def one(job):
+        kind, fname, sess = job
+        d = env.fresh("damage")
+        copy_dir(base, d)
+        out = run_child(child_spec(env.mods, d, sess))
+        shutil.rmtree(d, ignore_errors=True)
+        return job, out
+    with cf.ThreadPoolExecutor(max(2, common.NCPU // 2)) as ex:
+        res = list(ex.map(one, jobs))
+    bad = []
+    for (kind, fname, sess), out in res:
+        rs = out.get("results")
+        if not rs or len(rs) != len(sess["acts"]):
+            bad.append(("damage probe %s/%s: the session failed: %s" % (kind, fname, out), {"kind": "damage", "session": sess}))
+            continue
+        for a, o in zip(sess["acts"], rs):
+            if a["a"] == "damage":
+                continue
+            if "raise" in o or o.get("ok") != [1, a["k"]]:
+                bad.append(("%s of %s damaged as %r: %s(%d) [callback=%s, verbose=%s] %s instead of recomputing"
+                            % (fname, "entry 1", kind, a["a"], a["k"], sess.get("cb"), sess.get("verbose"),
+                               ("raised %s: %s" % (o.get("raise"), o.get("msg", "")[:100])) if "raise" in o else "returned %s" % o.get("ok")),
+                            {"kind": "damage", "session": sess}))
+    return len(jobs), bad
+
+
 def f24_replay(env):
     """cold call of a function whose source has a 2-byte utf-8 character, func_code.py torn inside it"""
     loc = env.fresh("f24")
@@ -669,6 +714,10 @@ def run(ctx):
                 known.append((what, rep))
             else:
                 oracle_fail.append((what, rep))
+    # damaged final files: the load-failure safety net
+    n_damage, dbad = damage_probes(env)
+    for what, rep in dbad[:3]:
+        oracle_fail.append((what, rep))
     # F24 witness
     f24 = f24_replay(env)
     r2 = f24["r2"].get("results", [{}])
@@ -709,6 +758,7 @@ def run(ctx):
         "samples": [{"workload": done[0][0]["name"], "point": sample["point"] if sample else None,
                      "recovery": sample["r2"].get("results") if sample else None}],
         "traces_validated_against_impl": len(done),
+        "damage_probes": n_damage,
         "crash_runs": n_crash, "torn_runs": n_torn, "read_back_processes": n_crash * 6, "crash_runs_per_workload": dist,
         "model_evaluations": len(vals),
         "disagreements": len(disagreements),
@@ -735,6 +785,14 @@ def replay(ctx, path):
         r = f24["r2"].get("results")
         print("replay f24:", r)
         return 1 if r and "raise" in r[0] else 0
+    if rep.get("kind") == "damage":
+        d = env.fresh("replay_damage")
+        run_child(child_spec(env.mods, d, S(1, [C(1), C(2)], cb="valid")))
+        out = run_child(child_spec(env.mods, d, rep["session"]))
+        bad = [o for a, o in zip(rep["session"]["acts"], out.get("results", []))
+               if a["a"] != "damage" and ("raise" in o or o.get("ok") != [1, a["k"]])]
+        print("replay damage:", out.get("results"), "=>", bad or "property holds")
+        return 1 if bad or "results" not in out else 0
     if rep.get("kind") != "crash":
         print("replay file names a broken proof/correspondence, nothing to execute:", rep.get("kind"))
         return 1
